@@ -36,10 +36,12 @@ def _ops_async(case):
         else:
             async def keyf(it):
                 return it.key
-    src, _ = make_source(case["src"], [("item", it) for it in items], "s0", log)
+    src, st = make_source(case["src"] if case["src"] != "list" else "iter", [("item", it) for it in items], "s0", log)
     gb = asyncstdlib.groupby(src) if keyf is None else asyncstdlib.groupby(src, keyf)
     groups, outs = [], []
+    consumed = []
     for op in case["ops"]:
+        consumed.append(None)
         if op[0] == "adv":
             res = drive(gb.__anext__())
             if isinstance(res.exc, StopAsyncIteration):
@@ -61,14 +63,35 @@ def _ops_async(case):
                 outs.append(["exc", exc_name(res.exc)])
             else:
                 outs.append(["item", res.value.id])
-    return outs
+        consumed[-1] = sum(1 for ev in log if ev[0] == "item")
+    for k in range(len(consumed)):
+        if consumed[k] is None:
+            consumed[k] = consumed[k - 1] if k else 0
+    return outs, consumed
+
+
+class _Counting:
+    def __init__(self, items):
+        self.it = iter(items)
+        self.n = 0
+
+    def __iter__(self):
+        return self
+
+    def __next__(self):
+        v = next(self.it)
+        self.n += 1
+        return v
 
 
 def _ops_sync(case):
     items = [Item(i, k) for i, k in enumerate(case["keys"])]
-    gb = itertools.groupby(iter(items)) if case["key"] == "none" else itertools.groupby(iter(items), lambda it: it.key)
+    cnt = _Counting(items)
+    gb = itertools.groupby(cnt) if case["key"] == "none" else itertools.groupby(cnt, lambda it: it.key)
     groups, outs = [], []
+    consumed = []
     for op in case["ops"]:
+        consumed.append(None)
         if op[0] == "adv":
             try:
                 k, g = next(gb)
@@ -85,11 +108,17 @@ def _ops_sync(case):
                 outs.append(["item", next(groups[op[1]]).id])
             except StopIteration:
                 outs.append(["stop"])
-    return outs
+        consumed[-1] = cnt.n
+    for k in range(len(consumed)):
+        if consumed[k] is None:
+            consumed[k] = consumed[k - 1] if k else 0
+    return outs, consumed
 
 
 def observe(case):
-    return {"impl": _ops_async(case), "std": _ops_sync(case)}
+    a, ac = _ops_async(case)
+    s, sc = _ops_sync(case)
+    return {"impl": a, "std": s, "impl_consumed": ac, "std_consumed": sc}
 
 
 def model_request(case):
@@ -108,7 +137,15 @@ def judge(case, obs, model):
         first = next((i for i, (a, b) in enumerate(zip(obs["impl"], obs["std"])) if a != b), None)
         tag = "groupby-differs"
         issues.append(Issue("oracle", {"first_diff_at_op": first, "impl": obs["impl"], "itertools": obs["std"]}, tag))
+    if not issues and obs["impl_consumed"] != obs["std_consumed"]:
+        k = next(i for i, (x, y) in enumerate(zip(obs["impl_consumed"], obs["std_consumed"])) if x != y)
+        issues.append(Issue("oracle", {"first_diff_at_op": k, "asyncstdlib_consumed": obs["impl_consumed"],
+                                       "itertools_consumed": obs["std_consumed"]}, "groupby-reads-ahead"))
     if model is not None:
+        if "error" not in model and (model["impl_consumed"] != obs["impl_consumed"]):
+            issues.append(Issue("A", {"consumed": obs["impl_consumed"], "model": model["impl_consumed"]}))
+        if "error" not in model and (model["spec_consumed"] != obs["std_consumed"]):
+            issues.append(Issue("B", {"consumed": obs["std_consumed"], "spec": model["spec_consumed"]}))
         if "error" in model:
             issues.append(Issue("A", model))
         else:
